@@ -111,6 +111,12 @@ def handle (toks : List String) : String :=
       let fs := convert o isPolygon { nodes := ns, ways := ws, relations := rs }
       if fs.isEmpty then "none" else " | ".intercalate (fs.map showFeature)
     | _, _, _ => "bad-op"
+  | "orient" :: rest =>
+    let (n, w, r) := sections rest
+    match n.mapM parseNode, w.mapM parseWay, r.mapM parseRel with
+    | some ns, some ws, some (rel :: _) =>
+      " ".intercalate ((orientations { nodes := ns, ways := ws, relations := [rel] } rel.members).map toString)
+    | _, _, _ => "bad-op"
   | _ => "bad-op"
 
 end OsmVerif.Oracle.C17
